@@ -23,10 +23,15 @@ def gen_mp_spec(rng, thorough=False):
 			prods.append(pid); pid += 1
 		sup.append({'label': s + 1, 'products': prods, 'slt': rng.choice([0, 1, 2]), 'olt': rng.choice([0, 0, 1]),
 					'S': rng.randint(5, 40), 'h': rng.choice([1, 2, 0.5])})
+	# multi-sourcing: a second supplier carries the first supplier's first product as well
+	msrc = None
+	if ns >= 2 and rng.random() < .45:
+		msrc = sup[0]['products'][0]
+		sup[1]['products'] = [msrc] + sup[1]['products'][1:]
 	rms = []   # (supplier label, product index or None for dummy)
 	for s in sup:
 		if s['products']:
-			rms += [(s['label'], p) for p in s['products']]
+			rms += [(s['label'], p) for p in s['products'] if not (p == msrc and s is not sup[0])]
 		else:
 			rms.append((s['label'], None))
 	nf = rng.randint(2, 3)
@@ -54,7 +59,7 @@ def gen_mp_spec(rng, thorough=False):
 	if rng.random() < .4:
 		dis = {'type': rng.choice(['OP', 'SP', 'TP', 'RP']), 'list': [rng.random() < .35 for _ in range(rng.randint(2, T))]}
 	return {'suppliers': sup, 'factory': {'label': 9, 'products': fprods, 'slt': rng.choice([0, 1, 2]), 'olt': rng.choice([0, 0, 1]),
-										   'dis': dis, 'cap': rng.choice([None, None, rng.randint(3, 12)])}, 'T': T}
+										   'dis': dis, 'cap': rng.choice([None, rng.randint(3, 12), rng.randint(2, 6)])}, 'T': T, 'shared': msrc}
 
 
 def build_mp(spec):
@@ -81,11 +86,22 @@ def build_mp(spec):
 		n = sup_nodes[s['label']]
 		if s['products']:
 			for p in s['products']:
-				po = SupplyChainProduct(p)
-				prod_objs[p] = po
-				n.add_product(po)
-				po.inventory_policy = Policy(type='BS', base_stock_level=s['S'], node=n, product=po)
-				po.initial_inventory_level = s['S']
+				if p in prod_objs:
+					# a product carried by several suppliers: one product object, policy and initial stock at (node, product) level
+					po = prod_objs[p]
+					n.add_product(po)
+				else:
+					po = SupplyChainProduct(p)
+					prod_objs[p] = po
+					n.add_product(po)
+			if spec.get('shared') is not None and spec['shared'] in s['products']:
+				n.inventory_policy = {p: Policy(type='BS', base_stock_level=s['S'], node=n, product=prod_objs[p]) for p in s['products']}
+				n.initial_inventory_level = {p: s['S'] for p in s['products']}
+			else:
+				for p in s['products']:
+					po = prod_objs[p]
+					po.inventory_policy = Policy(type='BS', base_stock_level=s['S'], node=n, product=po)
+					po.initial_inventory_level = s['S']
 		else:
 			n.inventory_policy = Policy(type='BS', base_stock_level=s['S'], node=n)
 			n.initial_inventory_level = s['S']
